@@ -50,6 +50,8 @@ CLAIMED["C17"] = ("E-SEQ", ESEQ + " with a virtual (paused tokio) clock driving 
     "For every (ping_timeout, pong_timeout) in {1,2,3}^2 every client response pattern up to the horizon (per virtual second: silence, PONG right/wrong token, PING tok, other traffic): server PINGs on schedule, a client without an unanswered PING is never dropped, a silent one is sent ERROR and dropped within pong_timeout (+1 s) of the first unanswered PING and not before, and leaves no trace.", NOTE)
 CLAIMED["C18"] = ("E-INT", "stateless exhaustive schedule search (DFS by re-execution, optional preemption bound) over the real connection futures stepped one tokio synchronisation operation at a time; linearizability against sequential runs of the same code", "DESIGN.md §3.2, §4 C18",
     "For 25 bursts of 2-3 connections every interleaving at the granularity of single tokio synchronisation operations (lock acquisitions, socket reads, flushes, the password-check yield) is executed on the real code; each outcome (final state, ordered replies per connection, ordered relays per sender/receiver pair, who is registered/closed) must equal the outcome of some sequential execution; plus representation invariants, deadlock detection and a PING liveness round.", "Single-threaded stepping covers multi-threaded executions up to Lipton reduction (every shared access is inside a tokio lock section, an atomic or an mpsc send); memory-ordering effects not modelled (all atomics SeqCst); bursts are small (<= 3 connections, <= 3 commands each).")
+CLAIMED["C20"] = ("E-FUN", EFUN + " (validity predicate over a configuration lattice); liveness of every documented key; hash/verify pairs; welcome-burst conformance in real worlds", "DESIGN.md §4 C20",
+    "The full product of per-field validity menus x 11 command-line variants (33 792 configurations) through the real Cli/MainConfig::new; every leaf key of config-example.toml shown to be live; 20x20 password pairs through hash/verify; 288 valid configurations on the wire (welcome burst, default modes, max_joins, server password).", "TLS-on versus TLS-off transcript equality is not covered in this round (needs the tls_rustls feature build and loopback sockets); start-up failure is observed as MainConfig::new returning Err, which main() propagates before run_server.")
 PENDING = {}
 
 def main():
